@@ -157,6 +157,10 @@ def parse_ty(txt, generics=()):
                 return ("mslice",) if mut else ("slice",)
             if inner == ("str",):
                 return ("slice",)
+            if isinstance(inner, tuple) and inner[:2] == ("named", "ReadBuf") and mut:
+                return ("rb",)
+            if isinstance(inner, tuple) and inner[:2] == ("named", "Context"):
+                return ("skip",)
             return ("ref", mut, inner)
         if x == "[":
             eat(); el = ty()
@@ -259,6 +263,35 @@ class Fn:
         s.generics = tuple(re.findall(r"\b([A-Z][A-Za-z0-9]*)\b\s*(?::|,|>)", fn["generics"])) + tuple(re.findall(r"\b([A-Z])\b", fn["generics"]))
 
     # ---- helpers
+    def is_self(s, e):
+        """`self`, a local bound to `self.get_mut()`, `self.get_mut()` itself, and (newtype structs) `<self>.0`"""
+        if e["k"] == "Path" and len(e["path"]) == 1:
+            return e["path"][0] == "self" or s.env.get(e["path"][0]) == ("selfalias",)
+        if e["k"] == "MethodCall" and e["method"] == "get_mut" and not e["args"]:
+            return s.is_self(e["recv"])
+        if e["k"] == "Field" and e["member"] == "0" and s.cfg.get("newtype"):
+            return s.is_self(e["base"])
+        return False
+
+    @staticmethod
+    def unpin(e):
+        """Pin::new(&mut X) / Pin::new(&mut *X)  ->  X"""
+        if e["k"] == "Call" and e["func"]["k"] == "Path" and e["func"]["path"][-2:] == ["Pin", "new"] and len(e["args"]) == 1:
+            a = e["args"][0]
+            if a["k"] == "Reference":
+                a = a["e"]
+            if a["k"] == "Unary" and a["op"] == "*":
+                a = a["e"]
+            return a
+        return e
+
+    def var_of(s, a, kinds):
+        """the local variable whose current value is the atom a"""
+        c = [n for n in s.env if s.sub.get(n, n) == a and s.env[n] and s.env[n][0] in kinds]
+        if not c:
+            raise Unsupported("expected a variable, got " + a)
+        return c[0]
+
     def scoped(s, f):
         """run f() and undo what it did to the local environment (a branch cannot leak bindings)"""
         env, sub = dict(s.env), dict(s.sub)
@@ -282,7 +315,10 @@ class Fn:
             return v
         return "(%s)" % ", ".join([v] + [s.sub.get(o, o) for o in s.outs])
 
-    def do_return(s, v):
+    def do_return(s, v, t=None):
+        co = s.cfg.get("ret_coerce")
+        if co and t is not None:
+            v = co(v, t)
         return s.return_raw(s.wrap_ret(v))
 
     def return_raw(s, w):
@@ -383,10 +419,12 @@ class Fn:
                 if n.get("k") == "Path" and len(n["path"]) == 1:
                     nm = n["path"][0]
                     t = s.env.get(nm)
-                    if t and t[0] == "mslice" and nm not in out:
+                    if t and t[0] in ("mslice", "rb") and nm not in out:
                         out.append(nm)
-                    if t and t[0] == "alias" and t[1] not in out:
+                    if t and t[0] in ("alias", "rbalias") and t[1] not in out:
                         out.append(t[1])
+                    if nm in s.backing and s.backing[nm][0] not in out:
+                        out.append(s.backing[nm][0])
                 for v in n.values():
                     walk(v)
             elif isinstance(n, list):
@@ -425,7 +463,14 @@ class Fn:
         if k == "Ident":
             nm = p["name"]
             s.env[nm] = t
-            if t and t[0] in ("alias",):
+            if t == ("selfalias",):
+                return krest()
+            if t and t[0] == "rbnew":
+                s.env[nm] = ("rb",)
+                s.backing = dict(s.backing, **{nm: (t[1], t[2])})
+                s.sub.pop(nm, None)
+                return Let(nm, a, krest())
+            if t and t[0] in ("alias", "rbalias"):
                 s.sub[nm] = a
                 return krest()
             if a == nm:
@@ -445,7 +490,7 @@ class Fn:
         if k == "Return":
             if e["e"] is None:
                 return s.do_return("tt")
-            return s.expr(e["e"], K(lambda a, t: s.do_return(a), cheap=True))
+            return s.expr(e["e"], K(lambda a, t: s.do_return(a, t), cheap=True))
         if k in ("If", "Match"):
             r = s.returns(e)
             if r == "never":
@@ -494,7 +539,7 @@ class Fn:
         return Bind(kn, inner, Match(kn, arms))
 
     def assign(s, l, r, krest):
-        if l["k"] == "Field" and l["base"]["k"] == "Path" and l["base"]["path"] == ["self"]:
+        if l["k"] == "Field" and s.is_self(l["base"]):
             f = l["member"]
             st = s.cfg["struct"]
             if f not in st.fields:
@@ -605,6 +650,10 @@ class Fn:
                 return k("SIZE", "usize")
             if nm == "None":
                 return k("None", ("opt", None))
+        if p[-2:] == ["Poll", "Pending"]:
+            return k("PPending", ("poll", None))
+        if len(p) == 1:
+            nm = p[0]
             if nm == "self":
                 return k("self", ("selfval",))
         raise Unsupported("path " + "::".join(p))
@@ -614,7 +663,9 @@ class Fn:
 
     def e_Field(s, e, k, hint):
         b = e["base"]
-        if b["k"] == "Path" and b["path"] == ["self"]:
+        if s.is_self(e):
+            return k("self", ("selfalias",))
+        if s.is_self(b):
             f = e["member"]
             st = s.cfg["struct"]
             if f not in st.fields:
@@ -736,6 +787,14 @@ class Fn:
                     if t == ("view",) and mut:
                         v = hint or s.fresh("view")
                         return Bind(v, Op(s.lift("view_sub %s %s %s" % (paren(a), paren(lo), paren(hi)))), k(v, ("view",)))
+                    if t and t[0] == "rbalias" and mut:
+                        # &mut buf.initialize_unfilled()[lo..hi]: bounds check; the result aliases that part of the ReadBuf
+                        _, base, view = t[:3]
+                        d = hint or s.fresh("dest")
+                        off = "v_off %s" % paren(view)
+                        sub = "{| v_off := %s; v_end := %s + %s |}" % (off if lo == "0" else "%s + %s" % (off, paren(lo)), off, paren(hi))
+                        return Bind(d, Op("slice_chk (rb_view_bytes %s %s) %s %s" % (paren(s.sub.get(base, base)), paren(view), paren(lo), paren(hi))),
+                                    k(d, ("rbalias", base, sub, d)))
                     if t == ("mslice",) and mut:
                         # &mut x[lo..hi]: bounds check now; the result is an alias of x[lo..hi]
                         base = [n for n in s.env if s.sub.get(n, n) == a and s.env[n] == ("mslice",)]
@@ -809,6 +868,8 @@ class Fn:
             ctors = [("Ok", [t[1]]), ("Err", [t[2]])]
         elif t == ("hasreader",):
             ctors = [("Some", [("readerref",)]), ("None", [])]
+        elif t == ("pr",):
+            return s.match_pr(a, arms, kb)
         else:
             raise Unsupported("match on %s" % (t,))
         out = []
@@ -844,6 +905,34 @@ class Fn:
         if t == ("hasreader",):
             return If(a, out[0][1], out[1][1])
         return Match(a, out)
+
+    def match_pr(s, a, arms, kb):
+        """Poll<io::Result<()>> as returned by a collaborator's poll_read: PrOk | PrErr e | PrPending"""
+        out = {}
+        for arm in arms:
+            p = arm["pat"]
+            if arm["guard"]:
+                raise Unsupported("guard on a Poll pattern")
+            key = None
+            if p["k"] == "Path" and p["path"][-2:] == ["Poll", "Pending"]:
+                key, pat = "PrPending", "PrPending"
+            elif p["k"] == "TupleStruct" and p["path"][-2:] == ["Poll", "Ready"] and len(p["elems"]) == 1:
+                q = p["elems"][0]
+                if q["k"] == "TupleStruct" and q["path"] == ["Err"] and q["elems"][0]["k"] == "Ident":
+                    key, pat = "PrErr", "PrErr %s" % q["elems"][0]["name"]
+                    nm = q["elems"][0]["name"]
+                elif q["k"] == "TupleStruct" and q["path"] == ["Ok"] and q["elems"][0]["k"] == "Tuple" and not q["elems"][0]["elems"]:
+                    key, pat = "PrOk", "PrOk"
+            if key is None or key in out:
+                raise Unsupported("Poll pattern")
+            def one(arm=arm, key=key):
+                if key == "PrErr":
+                    s.env[arm["pat"]["elems"][0]["elems"][0]["name"]] = ("err", "io")
+                return s.expr(arm["body"], kb)
+            out[key] = (pat, s.scoped(one))
+        if set(out) != {"PrOk", "PrErr", "PrPending"}:
+            raise Unsupported("non-exhaustive Poll match")
+        return Match(a, [out["PrOk"], out["PrErr"], out["PrPending"]])
 
     def irrefutable(s, p):
         if p["k"] in ("Ident", "Wild"):
@@ -927,7 +1016,8 @@ class Fn:
 
     def call_sig(s, sig, argvals, k, hint, discard):
         """call a translated function / primitive described by a Sig"""
-        outs = [i for i, (a, t) in enumerate(argvals) if t and t[0] in ("mslice", "alias")]
+        argvals = [(a, t) for a, t in argvals if t != ("skip",)]
+        outs = [i for i, (a, t) in enumerate(argvals) if t and t[0] in ("mslice", "alias", "rb", "rbalias")]
         txt = " ".join([sig.coqname] + ([sig.section_args] if sig.section_args else []) + [paren(s.arg_value(a, t)) for a, t in argvals])
         txt = txt.strip()
         if sig.world == "self":
@@ -951,6 +1041,8 @@ class Fn:
         return Bind(q, Op(txt), s.write_back(a, t, new, after))
 
     def arg_value(s, a, t):
+        if t and t[0] == "rbalias":
+            return "rb_view_bytes %s %s" % (paren(s.sub.get(t[1], t[1])), paren(t[2]))
         if t and t[0] == "alias":
             _, base, lo, hi = t
             return "slice %s %s %s" % (paren(s.sub.get(base, base)), paren(lo), paren(hi))
@@ -958,11 +1050,24 @@ class Fn:
 
     def write_back(s, a, t, new, after):
         """an in/out argument comes back from a callee with value `new`"""
-        if t[0] == "mslice":
-            base = [n for n in s.env if s.sub.get(n, n) == a and s.env[n] == ("mslice",)][0]
+        if t[0] in ("mslice", "rb"):
+            base = s.var_of(a, ("mslice", "rb"))
             nn = s.fresh(base)
             s.sub[base] = nn
+            if base in s.backing:
+                # the ReadBuf was built over a part of an outer ReadBuf: what the callee wrote lands there too
+                outer, view = s.backing[base]
+                on = s.fresh(outer)
+                cur = s.sub.get(outer, outer)
+                s.sub[outer] = on
+                return Let(nn, new, Let(on, "rb_write_view %s %s (rb_buf %s)" % (paren(cur), paren(view), nn), after()))
             return Let(nn, new, after())
+        if t[0] == "rbalias":
+            _, base, view = t[:3]
+            cur = s.sub.get(base, base)
+            nn = s.fresh(base)
+            s.sub[base] = nn
+            return Let(nn, "rb_write_view %s %s %s" % (paren(cur), paren(view), paren(new)), after())
         _, base, lo, hi = t
         cur = s.sub.get(base, base)
         nn = s.fresh(base)
@@ -970,14 +1075,16 @@ class Fn:
         return Let(nn, "splice %s %s %s" % (paren(cur), paren(lo), paren(new)), after())
 
     def e_MethodCall(s, e, k, hint, discard=False):
-        recv, m, al = e["recv"], e["method"], e["args"]
+        recv, m, al = s.unpin(e["recv"]), e["method"], e["args"]
         st = s.cfg["struct"]
+        if m == "get_mut" and not al and s.is_self(recv):
+            return k("self", ("selfalias",))
         # methods of self
-        if recv["k"] == "Path" and recv["path"] == ["self"] and st and m in st.methods:
+        if s.is_self(recv) and st and m in st.methods:
             sig = st.methods[m]
             return s.args(al, lambda av: s.call_sig(sig, av, k, hint or sig.hint, discard))
         # collaborator / field-specific operations
-        if recv["k"] == "Field" and recv["base"]["k"] == "Path" and recv["base"]["path"] == ["self"]:
+        if recv["k"] == "Field" and s.is_self(recv["base"]):
             key = (recv["member"], m)
             if st and key in st.fieldops:
                 return st.fieldops[key](s, e, k, hint)
@@ -996,6 +1103,8 @@ class Fn:
         p = f["path"]
         nm = p[-1]
         al = e["args"]
+        if p[-2:] == ["Poll", "Ready"]:
+            return s.expr(al[0], K(lambda a, t: k("PReady %s" % paren(a), ("poll", t))))
         if len(p) == 1 and nm in ("Some", "Ok", "Err"):
             def with_a(a, t):
                 ty = ("opt", t) if nm == "Some" else ("res", t, None) if nm == "Ok" else ("res", None, t)
@@ -1021,6 +1130,7 @@ class Fn:
         raise Unsupported("call of " + key)
 
     post = None
+    backing = {}      # rb local made by ReadBuf::new(<alias of an outer ReadBuf>) -> (outer variable, view atom)
 
     def e_Await(s, e, k, hint):
         """the single await of an async fn: everything up to here is the prefix (it ends by yielding the awaited read future),
@@ -1162,7 +1272,54 @@ def lib_utf8_unwrap(s, a, t, al, k, hint):
     return Bind(v, Op("from_utf8_unwrap_1 %s" % paren(t[1])), k(v, ("slice",)))
 
 
+def lib_rb_pure(fmt, ty):
+    def f(s, a, t, al, k, hint):
+        return k(fmt % paren(a), ty)
+    return f
+
+
+def lib_rb_advance(s, a, t, al, k, hint):
+    base = s.var_of(a, ("rb",))
+    def with_n(n, _t):
+        nn = s.fresh(base)
+        s.sub[base] = nn
+        if base in s.backing:
+            raise Unsupported("advance on a ReadBuf that aliases another")
+        return Bind(nn, Op("rb_advance %s %s" % (paren(a), paren(n))), k("tt", "unit"))
+    return s.expr(al[0], K(with_n))
+
+
+def lib_rb_initialize_unfilled(s, a, t, al, k, hint):
+    base = s.var_of(a, ("rb",))
+    q = s.fresh("q")
+    nn = s.fresh(base)
+    v = s.fresh("unfilled")
+    s.sub[base] = nn
+    return Bind(q, Op("rb_initialize_unfilled %s" % paren(a)), Let(nn, "(fst %s)" % q, Let(v, "(snd %s)" % q, k("<rbalias>", ("rbalias", base, v)))))
+
+
+def lib_map_err(s, a, t, al, k, hint):
+    c = al[0]
+    if c["k"] == "Closure" and len(c["inputs"]) == 1 and c["inputs"][0]["k"] == "Wild":
+        return s.expr(c["body"], K(lambda e, te: k("match %s with Ok v => Ok v | Err _ => Err %s end" % (a, paren(e)), ("res", t[1], te))))
+    raise Unsupported("Result::map_err with this closure")
+
+
+def call_readbuf_new(s, al, k, hint):
+    def with_a(a, t):
+        if not (t and t[0] == "rbalias" and len(t) == 4):
+            raise Unsupported("ReadBuf::new over %s" % (t,))
+        return k("rb_new %s" % paren(t[3]), ("rbnew", t[1], t[2]))
+    return s.expr(al[0], K(with_a))
+
+
 LIB = {
+    ("rb", "filled"): lib_rb_pure("rb_filled_bytes %s", ("slice",)),
+    ("rb", "remaining"): lib_rb_pure("rb_remaining %s", "usize"),
+    ("rb", "capacity"): lib_rb_pure("rb_capacity %s", "usize"),
+    ("rb", "advance"): lib_rb_advance,
+    ("rb", "initialize_unfilled"): lib_rb_initialize_unfilled,
+    ("res", "map_err"): lib_map_err,
     ("string", "push_str"): lib_push_str,
     ("utf8res1", "unwrap"): lib_utf8_unwrap,
     ("slice", "len"): lib_len("zlen %s"), ("mslice", "len"): lib_len("zlen %s"), ("view", "len"): lib_len("vlen %s"),
@@ -1219,6 +1376,7 @@ def call_from_utf8(s, al, k, hint):
 
 
 CALLS = {
+    "ReadBuf::new": call_readbuf_new, "tokio::io::ReadBuf::new": call_readbuf_new,
     "String::new": call_string_new, "core::ascii::escape_default": call_escape_default, "core::str::from_utf8": call_from_utf8,
     "tokio::io::AsyncReadExt::read": call_async_read,
     "core::cmp::min": call_min, "std::cmp::min": call_min,
